@@ -129,7 +129,12 @@ CLAIMS = {
              "or the coroutine returns; a failed eject loops back only after reporting retry=True and gives up only at "
              "max_tries after setting eject_broken, reporting retry=False and posting balldevice_<name>_broken; "
              "requests are queued (FIFO) only when no ball is available and are re-served on balldevice_balls_available, "
-             "which its handlers never veto. Liveness in general, cancellation races and path-restore logic are not decided.",
+             "which its handlers never veto. Also: requests are sized by the unclaimed balls of a device; the answer of a "
+             "query-style call on the eject path is never discarded; the ball announced at the target is resolved on "
+             "every outcome of the confirm handlers (failure only after did_not_arrive, done only after eject success "
+             "or after the ball-missing timeout declared the ball lost with retry and loss handling for the eject's "
+             "target; a returned ball clears already_left; a playfield timeout confirm only when no ball returned). "
+             "Liveness in general and cancellation races are not decided.",
         technique="typestate pairing on the coroutine CFG (trackers, locks, futures); guard analysis; boolean-event handler return check",
         ref="4/C05"),
     "C04": dict(
@@ -141,7 +146,10 @@ CLAIMS = {
              "transfers are paired: +1/-1 around an already-left eject, exactly (new-old) arrivals announced, the exact "
              "difference handed to the missing-ball logic, an eject chain debits the source and credits the last hop by "
              "one on every completed path and never without an available ball, playfield counts move by `balls` only for "
-             "ejects aimed at that playfield. Equality with the physical machine, conservation and bounds over all "
+             "ejects aimed at that playfield; (4) each lost-ball handler (idle, ejected, incoming) on every non-raising path hands "
+             "exactly one ball to the ball_missing_target and reports one missing ball, takes one available ball off "
+             "exactly when a replacement was found on the path and is requested for the device that lost it; the arrival "
+             "callback sets up one eject per unclaimed ball and announces balls_available once per new ball. Equality with the physical machine, conservation and bounds over all "
              "schedules - the bulk of the property - are NOT decided (runtime arithmetic over interleavings).",
         technique="CFG must-pass / guard analysis; who-may-call / who-may-write; paired-delta extraction",
         ref="4/C04"),
